@@ -231,6 +231,42 @@ pub fn component(
                 Err(e) => err = Some(format!("{:?}", e)),
             }
         }
+        "entry_history" => {
+            // the native validity checks on a FRESH composer and on a composer WITH HISTORY (the same
+            // entry point already used with the honest standard generator), same input: a
+            // representation of the standard generator whose auxiliary coordinates T1, T2 are free
+            // (pat = "t") or whose Z and coordinates are scaled by a free factor (pat = "z")
+            let g = dusk_jubjub::GENERATOR_EXTENDED;
+            let ga = dusk_jubjub::JubJubAffine::from(g);
+            let e = if pat == "z" {
+                let z = ctx.var("hz");
+                JubJubExtended::from_raw_unchecked(ga.get_u() * z, ga.get_v() * z, z, ctx.var("ht1"), ctx.var("ht2"))
+            } else {
+                JubJubExtended::from_raw_unchecked(ga.get_u(), ga.get_v(), BlsScalar::one(), ctx.var("ht1"), ctx.var("ht2"))
+            };
+            let show = |r: Result<(), Error>| match r {
+                Ok(()) => "Ok".to_string(),
+                Err(e) => format!("Err({:?})", e),
+            };
+            let mut outs = vec![];
+            for entry in ["mul_generator", "constant_point"] {
+                for history in [false, true] {
+                    let mut k = Composer::initialized();
+                    let s = k.append_witness(BlsScalar::from(5u64));
+                    if history {
+                        let _ = k.component_mul_generator(s, g);
+                        let _ = k.append_constant_point(g);
+                    }
+                    let r = if entry == "mul_generator" {
+                        k.component_mul_generator(s, e).map(|_| ())
+                    } else {
+                        k.append_constant_point(e).map(|_| ())
+                    };
+                    outs.push(json!({"entry": entry, "history": history, "result": show(r)}));
+                }
+            }
+            ret.push(("outcomes".into(), Value::Array(outs)));
+        }
         "point_predicates" => {
             // the dependency's predicates on the same symbolic point, one after the other:
             // the recorded comparisons identify each predicate in other paths
